@@ -38,6 +38,7 @@ impl Ctx {
                 Item::Str(s) => { blob(6, s.as_bytes(), &mut enc); dec_script.push(6); dec_out.push(s.len() as i128); dec_out.extend(s.bytes().map(|x| x as i128)); }
                 Item::Raw(b) | Item::Skip(b) => { blob(7, b, &mut enc); dec_script.extend([7, b.len() as i128]); dec_out.extend(b.iter().map(|&x| x as i128)); }
                 Item::RawStr(s) => { blob(7, s.as_bytes(), &mut enc); dec_script.extend([7, s.len() as i128]); dec_out.extend(s.bytes().map(|x| x as i128)); }
+                Item::Gen(..) => return,
             }
         }
         self.coq2(18, 0, &enc, &[], &Some(bytes.iter().map(|&b| b as i128).collect()), false);
@@ -50,6 +51,8 @@ impl Ctx {
     pub fn coq_reader(&mut self, kind: usize, data: &[u8], cfg: &[u64], obs: &[(Op, Out)], force: bool) {
         let (model_kind, chunky) = match kind { 0 => (0, false), 1 => (0, true), 2 => (1, false), 3 => (1, true), 4 => (2, false), 5 => (2, true), _ => return };
         if data.len() > 200 || obs.len() > 80 { return; }
+        // non-default page alignment changes the capacity, the other constructors are not modelled
+        if cfg.get(10).copied().unwrap_or(0) > 1 || cfg.get(11).copied().unwrap_or(0) != 0 { return; }
         let gc = |i: usize, d: u64| cfg.get(i).copied().unwrap_or(d);
         let cap = gc(0, 8).max(1);
         let dl = data.len() as u64;
@@ -59,7 +62,12 @@ impl Ctx {
         let chunk = if chunky { gc(6, 1).max(1) as usize } else { 0 };
         let mut out: Vec<i128> = vec![];
         for ((name, n), o) in obs {
+            // a run of reads is one entry in the history but many operations; the widened constructors and options are not modelled
+            if name == "reads" { return; }
             if *o == Out::Unsupported { continue; }
+            // observers the model does not know leave the state alone: left out of the comparison
+            if matches!(name.as_str(), "utf8" | "crc" | "vcrc" | "usage" | "rinfo" | "inner_pos") { continue; }
+            // any other unmodelled operation (vectored read, set_total_size) changes the state: the history is oracle-only
             let code = match op_code(name) { Some(c) => c, None => return };
             ints.push(code);
             ints.push(*n as i128);
@@ -70,7 +78,7 @@ impl Ctx {
                 Out::Skipped => out.push(-2),
                 Out::Pos(q) => out.push(*q as i128),
                 Out::Err(_) => out.push(-3),
-                Out::Unsupported => {}
+                Out::Unsupported | Out::Flag(..) | Out::Crc(..) | Out::Info(..) => {}
             }
         }
         self.coq2(30 + model_kind, chunk, &ints, data, &Some(out), force);
